@@ -96,7 +96,15 @@ def pred_c07(tr, story):
     v = []
     steps = steps_of(tr)
     stops = [(i, o) for i, (_, _, obs) in enumerate(steps) for o in obs if o.startswith("STOP")]
-    ever = any(p["cs"] == "CONN" for _, p, _ in steps)
+    # "ever reached the connected state": a connection that had already been closed does not become a session by being
+    # relabelled connected afterwards (closed is final, C05) - no stop callback is due for it
+    ever = False
+    for _, p, _ in steps:
+        if p["cs"] == "CLOSED":
+            break
+        if p["cs"] == "CONN":
+            ever = True
+            break
     final = steps[-1][1]["cs"] if steps else "INIT"
     want = 1 if (ever and final == "CLOSED") else 0
     if len(stops) != want:
@@ -279,6 +287,28 @@ def pred_c12(tr, story):
     return v
 
 
+def _close_cause_class(steps, i):
+    """The error class the property assigns to the close cause that closed the connection in callback i, for the causes where the
+    label alone decides it (None otherwise); only when no fatal error had been recorded before that callback."""
+    if i <= 0 or steps[i - 1][1]["fatal"] != "-":
+        return None
+    label = steps[i][0]
+    if label == "eof":
+        return "L.SocketClosed"
+    if label == "timer:pong":
+        return "L.PingFailed"
+    if label == "clost":
+        for l, _, _ in reversed(steps[:i]):
+            if l.startswith("lost:"):
+                return {"lost:R.Reset": "L.ReadFailed", "lost:none": "L.SocketClosed"}.get(l)
+        return None
+    if label.startswith("data:") and label[5:].split(";")[-1].startswith("bp."):
+        items = label[5:].split(";")
+        if all(not it.startswith("bp.") for it in items[:-1]) and len(items) == 1:
+            return "L.RequiresEncryption" if items[0] == "bp.1" else "L.Protocol"
+    return None
+
+
 def _transport_closing_before(steps, i):
     """A write on a closing transport is dropped silently: eof/lost before this step while not yet closed."""
     return any(l in ("eof",) or l.startswith("lost") for l, _, _ in steps[:i])
@@ -397,6 +427,9 @@ def pred_c11(tr, story):
             late_timer = any(l == f"timer:c{cid}" for l, _, _ in steps[c["end"] + 1:])
             if r[0] != "err" or not r[1].startswith("L."):
                 v.append(("C11/close-error", f"call {cid} was pending when the connection closed and ended with {r}, expected the connection's error", c["end"]))
+            elif _close_cause_class(steps, c["end"]) not in (None, r[1]):
+                v.append(("C11/close-error", f"call {cid} was pending when the connection closed ({steps[c['end']][0][:40]}) and ended with {r[1]}, "
+                          f"the connection's error for that cause is {_close_cause_class(steps, c['end'])}", c["end"]))
             elif r[1] == "L.Timeout" and late_timer:
                 v.append(("C11/close-error", f"call {cid} was pending when the connection closed, yet it only ended when its own timeout fired afterwards ({r[1]}): "
                           "the close did not fail it with the connection's error", c["end"]))
@@ -475,7 +508,9 @@ def pred_c09(tr, story):
         if label.startswith("cancel:"):
             cancelled.add(label[7:])
         if label.startswith("data:bp.1") and pj and pj["cs"] != "CLOSED" and pj["ff"] == "P" and pj["fatal"] == "-" \
-                and "F" in started and not any(l.startswith("timer:") for l, _, _ in steps[started["F"][0]:i]):
+                and "F" in started and not any(l.startswith("timer:") for l, _, _ in steps[started["F"][0]:i]) \
+                and not any(l.startswith("data:") and any(it.startswith(("f.2.", "f.4.")) for it in l[5:].split(";")) for l, _, _ in steps[started["F"][0]:i]):
+            # (a hello / connect response that arrived before the bad preamble is the earlier event: its verdict may come first)
             req_enc_pending_f = True
         if pj and p["cs"] == "CLOSED" and pj["cs"] != "CLOSED":
             closed_fatal = p["fatal"]
@@ -604,6 +639,15 @@ def window_stories():
     # request/response windows: several calls, response with timeout / cancel / close in one turn, late extra messages
     GR, GE, LD, LS = 74, 82, 19, 16
     story(est + [CALLS[1], CALLS[2], ("drain",), ("data", [H(GR, tag=9), H(GR, tag=4), H(GE, tag=3), H(GR, tag=3)])])
+    # an error while a graceful disconnect is under way, with a call outstanding: the call gets the connection's error
+    for cause in (("lost", "R.Reset"), ("eof",), ("data", [("bp", 0)]), ("lost", None)):
+        story(est + [CALLS[0], ("drain",), ("disc",), ("drain",), cause, ("drain",)])
+        story(est + [CALLS[1], ("drain",), ("disc",), cause, ("drain",)])
+    # calls whose response-type sets overlap in one type only, registered one after the other (and after an earlier call has come and gone):
+    # a read response must not feed the write that merely shares the error type with reads, and vice versa
+    for first in ([CALLS[1], ("drain",), ("data", [H(GR, tag=3)]), ("drain",)], []):
+        story(est + first + [CALLS[4], CALLS[2], ("drain",), ("data", [H(GR, tag=3)]), ("drain",), ("data", [H(83, tag=3)]), ("drain",), ("data", [H(GR, tag=4)])])
+        story(est + first + [CALLS[2], CALLS[4], ("drain",), ("data", [H(83, tag=4), H(GR, tag=3), H(GE, tag=3)]), ("drain",), ("data", [H(GR, tag=4)])])
     story(est + [CALLS[3], ("drain",), ("data", [H(LS, tag=1), H(LS, tag=2), H(LD), H(LS, tag=3)]), ("data", [H(LS, tag=4)])])
     story(est + [CALLS[3], CALLS[3], ("drain",), ("data", [H(LS, tag=1), H(LD), H(LD), H(LS, tag=3)])])
     story(est + [CALLS[0], ("data", [H(10)])])
